@@ -96,18 +96,22 @@ func toks(ss []stmt) string {
 }
 
 type program struct {
-	N, M     int
-	funcs    [][]stmt // funcs[0] is main
-	nparams  []int
-	caps     []int
-	cells    int
-	shapes   []string
-	wrappers map[int]wrapper // function index → native function it stands for
-	deferred map[int][]stmt  // function index → native sends deferred at its start (run in this order at its end)
-	segs     [][]stmt        // the statements of main, one segment per shape
-	modelled bool
-	alts     []*program // raw programs of several independent parts: one program per part (for shrinking)
-	raw      string     // a program outside the mini language: Go source with @@ after every package-level name and @MAIN@ for main
+	N, M                   int
+	funcs                  [][]stmt // funcs[0] is main
+	nparams                []int
+	caps                   []int
+	cells                  int
+	shapes                 []string
+	wrappers               map[int]wrapper // function index → native function it stands for
+	deferred               map[int][]stmt  // function index → native sends deferred at its start (run in this order at its end)
+	segs                   [][]stmt        // the statements of main, one segment per shape
+	modelled               bool
+	alts                   []*program  // raw programs of several independent parts: one program per part (for shrinking)
+	raw                    string      // a program outside the mini language: Go source with @@ after every package-level name and @MAIN@ for main
+	seq                    *seqProg    // a program of the operation-sequence stream (opseq.go): Model/ChanSeq.lean is its second oracle
+	predict                *prediction // what a recorded defect of the frozen tree makes of this program (forms.go); nil: it must behave as under gc
+	rangeTarget, rangeLast int         // range-kinds programs, see resolve
+	doneOff                bool        // not run under the context modes with a Done channel (steps around a recorded defect)
 }
 
 func (p *program) protoLine(level string, fp0, fuel int, seed uint64) string {
